@@ -17,7 +17,8 @@ func checkC09(c *Ctx) {
 	c.Clause("a new bucket starts with tokens = maxTokens")
 	c.Clause("Allow and its callees write only the bucket looked up for their own key (isolation frame condition)")
 	c.Clause("LoadBalancer.ServeHTTP forwards only after Allow(GetClientIP(r)) returned true; the false edge answers 429, counts it and never reaches the proxy/breaker")
-	c.NotDecided("the sliding-window bound max+floor(T/refill)+1 over arrival histories; idle-refill counts; cleanup timing")
+	c.Clause("a bucket is removed from the map only when it is full after crediting its pending refill (eviction grants no tokens)")
+	c.NotDecided("the sliding-window bound max+floor(T/refill)+1 over arrival histories; idle-refill counts")
 
 	// 1. lock discipline
 	lockDiscipline(c, func(k string) bool { return strings.HasPrefix(k, "ratelimiter.bucket.") })
@@ -188,6 +189,247 @@ func checkC09(c *Ctx) {
 	c09SharedBucket(c, allow)
 	c09Isolation(c, allow)
 	c09Gate(c)
+	c09Eviction(c)
+	c09EvictionAtomic(c, allow)
+}
+
+// bucketRemovalSites: the calls in fn that take a bucket out of (or replace one in) the limiter's map.
+func bucketRemovalSites(fn *ssa.Function) []ssa.CallInstruction {
+	var sites []ssa.CallInstruction
+	for _, ci := range callsIn(fn) {
+		switch CalleeName(ci) {
+		case "(*sync.Map).Delete", "(*sync.Map).LoadAndDelete", "(*sync.Map).CompareAndDelete", "(*sync.Map).Clear", "(*sync.Map).Store", "(*sync.Map).Swap", "(*sync.Map).CompareAndSwap":
+			if fa, ok := ci.Common().Args[0].(*ssa.FieldAddr); ok {
+				if fr, ok := fieldRefOf(fa); ok && fr.Key() == "ratelimiter.TokenBucketRateLimiter.buckets" {
+					sites = append(sites, ci)
+				}
+			}
+		}
+	}
+	return sites
+}
+
+// c09EvictionAtomic: Allow looks a bucket up and locks it in two steps, so a request can hold a
+// bucket that the sweep removes in between.  Spending from that orphan next to its full replacement
+// admits up to 2 × max_tokens in one burst.  The bound holds under every schedule only if
+//
+//	(a) a bucket leaves the map inside the critical section (of its own mutex) that decided so,
+//	(b) that section marks the bucket (a boolean field set to true), and
+//	(c) Allow tests the mark, under the bucket's lock, before it spends.
+func c09EvictionAtomic(c *Ctx, allow *ssa.Function) {
+	p := c.P
+	rule := "eviction-atomic"
+	const bk = "ratelimiter.bucket."
+	mkSpec := func(isSite map[ssa.Instruction]bool) *Spec {
+		return &Spec{
+			Event: func(in ssa.Instruction, fr *Frame) string {
+				if isSite[in] {
+					return "evict"
+				}
+				if k, st := storeKey(in); strings.HasPrefix(k, bk) {
+					return "store " + k + " := " + p.Desc(st.Val, fr)
+				}
+				if ci, ok := in.(ssa.CallInstruction); ok {
+					if op, ok := asLockOp(ci); ok && op.Class == bk+"mutex" {
+						if op.Acquire {
+							return "lock"
+						}
+						return "unlock"
+					}
+				}
+				return ""
+			},
+			Cond:   func(in *ssa.If, fr *Frame) string { return "if " + p.Desc(in.Cond, fr) },
+			Expand: expandAllHelios(),
+		}
+	}
+	marks := map[string]bool{}
+	nSites := 0
+	for _, fn := range p.Funcs {
+		pk := fnPkg(fn)
+		if pk == nil || !strings.HasSuffix(pk.Pkg.Path(), "/ratelimiter") {
+			continue
+		}
+		sites := bucketRemovalSites(fn)
+		if len(sites) == 0 {
+			continue
+		}
+		nSites += len(sites)
+		isSite := map[ssa.Instruction]bool{}
+		for _, s := range sites {
+			isSite[s] = true
+		}
+		c.traceRule(rule, p.FuncKey(fn)+"/removal", fn, mkSpec(isSite),
+			"a bucket leaves the map inside the critical section of its own mutex that decided so, and is marked there",
+			func(t *Trace) string {
+				for i, it := range t.Items {
+					if it.Label != "evict" {
+						continue
+					}
+					// the enclosing critical section
+					lo := -1
+					for j := i - 1; j >= 0; j-- {
+						l := t.Items[j].Label
+						if l == "unlock" || l == "run:unlock" {
+							break
+						}
+						if l == "lock" {
+							lo = j
+							break
+						}
+					}
+					if lo < 0 {
+						return "a bucket is removed from the map after the bucket's lock was released: a request that looked the bucket up before (and locks it after) the removal spends from the orphan while later requests get a full replacement — up to 2 × max_tokens pass in one burst"
+					}
+					marked := ""
+					for j := lo; j < len(t.Items); j++ {
+						l := t.Items[j].Label
+						if j > i && (l == "unlock" || l == "run:unlock") {
+							break
+						}
+						if strings.HasPrefix(l, "store "+bk) && strings.HasSuffix(l, " := k:true") {
+							marked = strings.TrimSuffix(strings.TrimPrefix(l, "store "), " := k:true")
+						}
+					}
+					if marked == "" {
+						return "a bucket is removed under its lock but not marked: a request already waiting for that lock spends from the orphan next to its full replacement"
+					}
+					marks[marked] = true
+				}
+				return ""
+			})
+	}
+	if nSites == 0 {
+		c.Pass(rule, "ratelimiter.TokenBucketRateLimiter.buckets", "-", "buckets are never removed or replaced")
+		return
+	}
+	if len(marks) == 0 {
+		return // already reported at the removal sites
+	}
+	tok := bk + "tokens"
+	c.traceRule(rule, "ratelimiter.(*TokenBucketRateLimiter).Allow/spends-from-live-bucket", allow, mkSpec(nil),
+		"every token is spent in a critical section that first found the bucket not evicted",
+		func(t *Trace) string {
+			for i, it := range t.Items {
+				if it.Label != "store "+tok+" := (fld:"+tok+" - k:1)" {
+					continue
+				}
+				live := false
+				for j := i - 1; j >= 0; j-- {
+					b := t.Items[j]
+					if b.Label == "lock" || b.Label == "unlock" || b.Label == "run:unlock" {
+						break
+					}
+					if _, isIf := b.Instr.(*ssa.If); !isIf {
+						continue
+					}
+					r := c.condRel(b)
+					for m := range marks {
+						if o, ok := r.Orient(m, ""); ok && o.OK && o.Pred == "" && o.Y == "" && !o.Neq && o.Lo == 0 && o.Hi == 0 {
+							live = true
+						}
+					}
+				}
+				if !live {
+					return "a token is spent without testing, in the same critical section, that the bucket has not been evicted (" + strings.Join(keys(marks), ", ") + ")"
+				}
+			}
+			return ""
+		})
+}
+
+// c09Eviction: a client whose bucket is removed from the map starts over with a full one, so a
+// removal is a grant of (maxTokens − what the bucket would hold now) tokens.  The bound of the
+// property survives only if that grant is zero: on every path that removes or replaces a bucket the
+// deciding branches establish that the bucket is full once its pending refill is credited —
+// tokens ≥ maxTokens, or tokens + (now−lastRefill)/refillRate ≥ maxTokens.  An idle-time threshold
+// alone does not: max_tokens × refill_rate_seconds is not bounded by validation, so for slow refill
+// rates an idle bucket is still short of full when the threshold passes.
+func c09Eviction(c *Ctx) {
+	p := c.P
+	rule := "eviction-grants-nothing"
+	tok := "ratelimiter.bucket.tokens"
+	nSites := 0
+	for _, fn := range p.Funcs {
+		pk := fnPkg(fn)
+		if pk == nil || !strings.HasSuffix(pk.Pkg.Path(), "/ratelimiter") {
+			continue
+		}
+		sites := bucketRemovalSites(fn)
+		if len(sites) == 0 {
+			continue
+		}
+		nSites += len(sites)
+		isSite := map[ssa.Instruction]bool{}
+		for _, s := range sites {
+			isSite[s] = true
+		}
+		spec := &Spec{
+			Event: func(in ssa.Instruction, fr *Frame) string {
+				if isSite[in] {
+					return "evict:" + strings.TrimPrefix(CalleeName(in.(ssa.CallInstruction)), "(*sync.Map).")
+				}
+				return ""
+			},
+			Cond:   func(in *ssa.If, fr *Frame) string { return "if " + p.Desc(in.Cond, fr) },
+			Expand: expandAllHelios(),
+		}
+		c.traceRule(rule, p.FuncKey(fn)+"/buckets", fn, spec,
+			"every path that removes or replaces a bucket has established that the bucket is full once its pending refill is credited",
+			func(t *Trace) string {
+				for i, it := range t.Items {
+					if !strings.HasPrefix(it.Label, "evict:") {
+						continue
+					}
+					if it.Label == "evict:Clear" {
+						return "all buckets are dropped at once: every client gets a fresh burst"
+					}
+					full := false
+					var seen []string
+					for _, b := range t.Items[:i] {
+						if _, isIf := b.Instr.(*ssa.If); !isIf {
+							continue
+						}
+						r := c.condRel(b)
+						if !r.OK || r.Pred != "" {
+							continue
+						}
+						o, ok := r.Orient(tok, "maxTokens")
+						if !ok {
+							continue
+						}
+						seen = append(seen, o.String())
+						if o.Neq || o.Lo < 0 {
+							continue
+						}
+						x := o.X
+						if x == "fld:"+tok {
+							full = true
+							continue
+						}
+						// tokens + credited refill
+						pre := "(fld:" + tok + " + "
+						if strings.HasPrefix(x, pre) && strings.HasSuffix(x, ")") {
+							added := strings.TrimSuffix(strings.TrimPrefix(x, pre), ")")
+							if elapsedSinceRefill(added) && strings.Contains(added, " / fld:ratelimiter.TokenBucketRateLimiter.refillRate") && !strings.Contains(added, " + ") && !strings.Contains(added, " * ") {
+								full = true
+							}
+						}
+					}
+					if !full {
+						why := "no test of the bucket's fill level precedes it"
+						if len(seen) > 0 {
+							why = "the tests that precede it do not imply it (" + strings.Join(seen, "; ") + ")"
+						}
+						return "a bucket is removed without establishing that it is full (tokens + (now−lastRefill)/refillRate ≥ maxTokens): " + why + ". Its client starts over with max_tokens; when max_tokens × refill_rate exceeds the idle threshold (e.g. 5 tokens, one per hour) that is more than the bucket had refilled, and the client exceeds max_tokens + floor(T/refill) + 1"
+					}
+				}
+				return ""
+			})
+	}
+	if nSites == 0 {
+		c.Pass(rule, "ratelimiter.TokenBucketRateLimiter.buckets", "-", "buckets are never removed or replaced")
+	}
 }
 
 // c09SharedBucket: the bucket Allow locks and spends from is the one held in the shared map: the
@@ -482,4 +724,12 @@ func isMinLike(p *Program, h *ssa.Function) bool {
 		return fRet
 	}
 	return pick(-1) == ssa.Value(h.Params[0]) && pick(1) == ssa.Value(h.Params[1])
+}
+
+// elapsedSinceRefill: the description contains sub(T, lastRefill) for a time T that is not itself
+// derived from the bucket (now, a timestamp taken by the caller).
+func elapsedSinceRefill(d string) bool {
+	i := strings.Index(d, "sub(")
+	j := strings.Index(d, ",fld:ratelimiter.bucket.lastRefill)")
+	return i >= 0 && j > i && !strings.Contains(d[i:j], "ratelimiter.bucket.")
 }
